@@ -21,7 +21,7 @@ MEAS_DIAG = [
     ('none', []), ('pass', []), ('fail', []), ('unset', []), ('marg', []), (['fail', 'pass'], []), (['unset', 'fail', 'pass'], []),
     ('none', ['A']), ('none', ['FA']), ('none', ['raise']), ('none', ['raise', 'FA']), ('none', ['none', 'A']),
     ('pass', ['FA']), ('fail', ['A']), ('fail', ['raise']), ('pass', ['A', 'FB']),
-    ('dimunset', []), ('dimset', []), ('none', ['AFlist']), ('none', ['AF1']), ('none', ['ABlist']), ('pass', ['AFlist']),
+    ('dimunset', []), ('dimset', []), (['dimbad', 'dimgood'], []), (['dimgood', 'dimbad', 'dimgood'], []), ('none', ['AFlist']), ('none', ['AF1']), ('none', ['ABlist']), ('pass', ['AFlist']),
 ]
 OPTS = [
     {}, {'repeat_limit': 1}, {'repeat_limit': 2}, {'repeat_limit': 4}, {'force_repeat': True}, {'repeat_on_measurement_fail': True},
